@@ -249,6 +249,11 @@ def _history(case, ctx, sim, cluster, session, policy, addrs, script, stt, calls
                 del node.held[j]
                 break
         ans = script[node.address]
+        if conn.is_closed or conn.is_defunct or conn.srv_closed:
+            # the client already gave up on this connection (e.g. its pool shut down because a sibling failed):
+            # whatever the node would answer now is never seen
+            ctx.label("answer-on-dead-connection")
+            continue
         delivered.append((node.address, ans))
         if ans == "ok":
             node.default(conn, req)
